@@ -1,8 +1,429 @@
 package main
 
-import "regexp"
+// Symbolic regular-expression matching. Patterns are concrete (the real *regexp.Regexp objects
+// built by the package initialisers); they are compiled with the real regexp/syntax and run by a
+// priority-ordered backtracking matcher over syntax.Prog (leftmost-first, the semantics Go
+// documents), in which "does this byte match this class" is a term decided by forking.
+// Subject strings are ASCII where symbolic (assumption recorded).
+
+import (
+	"regexp"
+	"regexp/syntax"
+	"strconv"
+	"strings"
+	"sync"
+	"unicode"
+)
+
+type reProg struct {
+	prog   *syntax.Prog
+	numCap int
+}
+
+var (
+	reCache   = map[string]*reProg{}
+	reCacheMu sync.Mutex
+)
+
+func compileRe(re *regexp.Regexp) (*reProg, error) {
+	reCacheMu.Lock()
+	defer reCacheMu.Unlock()
+	pat := re.String()
+	if rp, ok := reCache[pat]; ok {
+		return rp, nil
+	}
+	rx, err := syntax.Parse(pat, syntax.Perl)
+	if err != nil {
+		return nil, err
+	}
+	n := rx.MaxCap()
+	prog, err := syntax.Compile(rx.Simplify())
+	if err != nil {
+		return nil, err
+	}
+	rp := &reProg{prog: prog, numCap: 2 * (n + 1)}
+	reCache[pat] = rp
+	return rp, nil
+}
+
+// runeCond: the condition under which byte b (ASCII) matches instruction i.
+func (p *path) runeCond(i *syntax.Inst, b *Term) *Term {
+	tc := p.tc
+	switch i.Op {
+	case syntax.InstRuneAny:
+		return tc.tt
+	case syntax.InstRuneAnyNotNL:
+		return tc.Not(tc.Eq(b, p.byteConst('\n')))
+	case syntax.InstRune1:
+		if i.Rune[0] >= 0x80 {
+			return tc.ff
+		}
+		return tc.Eq(b, p.byteConst(byte(i.Rune[0])))
+	case syntax.InstRune:
+		fold := syntax.Flags(i.Arg)&syntax.FoldCase != 0
+		if len(i.Rune) == 1 {
+			r := i.Rune[0]
+			c := tc.ff
+			if r < 0x80 {
+				c = tc.Eq(b, p.byteConst(byte(r)))
+			}
+			if fold {
+				for f := unicode.SimpleFold(r); f != r; f = unicode.SimpleFold(f) {
+					if f < 0x80 {
+						c = tc.Or(c, tc.Eq(b, p.byteConst(byte(f))))
+					}
+				}
+			}
+			return c
+		}
+		c := tc.ff
+		for k := 0; k+1 < len(i.Rune); k += 2 {
+			lo, hi := i.Rune[k], i.Rune[k+1]
+			if lo >= 0x80 {
+				continue
+			}
+			if hi >= 0x80 {
+				hi = 0x7f
+			}
+			c = tc.Or(c, p.inRange(b, byte(lo), byte(hi)))
+		}
+		return c
+	}
+	return tc.ff
+}
+
+func (p *path) isWordByte(b *Term) *Term { return p.classTerm(b, "word", false) }
+
+// emptyCond: condition of an empty-width assertion at position pos of s.
+func (p *path) emptyCond(op syntax.EmptyOp, s Str, pos int) *Term {
+	tc := p.tc
+	c := tc.tt
+	n := len(s.b)
+	if op&syntax.EmptyBeginText != 0 {
+		c = tc.And(c, tc.Bool(pos == 0))
+	}
+	if op&syntax.EmptyEndText != 0 {
+		c = tc.And(c, tc.Bool(pos == n))
+	}
+	if op&syntax.EmptyBeginLine != 0 {
+		if pos > 0 {
+			c = tc.And(c, tc.Eq(s.b[pos-1], p.byteConst('\n')))
+		}
+	}
+	if op&syntax.EmptyEndLine != 0 {
+		if pos < n {
+			c = tc.And(c, tc.Eq(s.b[pos], p.byteConst('\n')))
+		}
+	}
+	if op&(syntax.EmptyWordBoundary|syntax.EmptyNoWordBoundary) != 0 {
+		before, after := tc.ff, tc.ff
+		if pos > 0 {
+			before = p.isWordByte(s.b[pos-1])
+		}
+		if pos < n {
+			after = p.isWordByte(s.b[pos])
+		}
+		boundary := tc.Not(tc.Eq(before, after))
+		if op&syntax.EmptyWordBoundary != 0 {
+			c = tc.And(c, boundary)
+		}
+		if op&syntax.EmptyNoWordBoundary != 0 {
+			c = tc.And(c, tc.Not(boundary))
+		}
+	}
+	return c
+}
+
+// reExec finds the leftmost-first match starting the search at position from.
+// Returns the capture positions (len = numCap, -1 for unset) or nil.
+func (p *path) reExec(rp *reProg, s Str, from int) []int {
+	n := len(s.b)
+	prog := rp.prog
+	for start := from; start <= n; start++ {
+		visited := map[[2]int]bool{}
+		caps := make([]int, rp.numCap)
+		for i := range caps {
+			caps[i] = -1
+		}
+		var run func(pc, pos int, caps []int) []int
+		run = func(pc, pos int, caps []int) []int {
+			for {
+				key := [2]int{pc, pos}
+				if visited[key] {
+					return nil
+				}
+				visited[key] = true
+				inst := &prog.Inst[pc]
+				switch inst.Op {
+				case syntax.InstFail:
+					return nil
+				case syntax.InstMatch:
+					out := append([]int{}, caps...)
+					out[1] = pos
+					return out
+				case syntax.InstNop:
+					pc = int(inst.Out)
+				case syntax.InstCapture:
+					if int(inst.Arg) < len(caps) {
+						nc := append([]int{}, caps...)
+						nc[inst.Arg] = pos
+						caps = nc
+					}
+					pc = int(inst.Out)
+				case syntax.InstAlt, syntax.InstAltMatch:
+					if r := run(int(inst.Out), pos, caps); r != nil {
+						return r
+					}
+					pc = int(inst.Arg)
+				case syntax.InstEmptyWidth:
+					if !p.branch(p.emptyCond(syntax.EmptyOp(inst.Arg), s, pos)) {
+						return nil
+					}
+					pc = int(inst.Out)
+				case syntax.InstRune, syntax.InstRune1, syntax.InstRuneAny, syntax.InstRuneAnyNotNL:
+					if pos >= n {
+						return nil
+					}
+					if !p.branch(p.runeCond(inst, s.b[pos])) {
+						return nil
+					}
+					pos++
+					pc = int(inst.Out)
+				default:
+					p.unsupported("regexp instruction " + inst.Op.String())
+				}
+			}
+		}
+		c0 := append([]int{}, caps...)
+		c0[0] = start
+		if r := run(prog.Start, start, c0); r != nil {
+			r[0] = start
+			return r
+		}
+		// an anchored pattern (^...) cannot match later: the emptyCond test fails at once
+	}
+	return nil
+}
+
+func (p *path) reSubject(s Str) {
+	for _, b := range s.b {
+		if b.IsConst() && b.val >= 0x80 {
+			p.unsupported("regexp on a partly symbolic non-ASCII subject")
+		}
+	}
+	p.asciiOnly(s, "regexp matching")
+}
+
+func subStr(s Str, caps []int, k int) Str {
+	if 2*k+1 >= len(caps) || caps[2*k] < 0 || caps[2*k+1] < 0 {
+		return Str{}
+	}
+	return Str{s.b[caps[2*k]:caps[2*k+1]]}
+}
+
+// allMatches mirrors (*Regexp).allMatches for n = -1.
+func (p *path) reAll(rp *reProg, s Str) [][]int {
+	var out [][]int
+	end := len(s.b)
+	for pos, prevMatchEnd := 0, -1; pos <= end; {
+		m := p.reExec(rp, s, pos)
+		if m == nil {
+			break
+		}
+		accept := true
+		if m[1] == pos {
+			if m[0] == prevMatchEnd {
+				accept = false
+			}
+			pos++
+		} else {
+			pos = m[1]
+		}
+		prevMatchEnd = m[1]
+		if accept {
+			out = append(out, m)
+		}
+	}
+	return out
+}
+
+// expandTemplate implements Regexp.expand for templates with $n, ${n} and $$ (named groups unsupported).
+func (p *path) expandTemplate(tmpl string, s Str, caps []int) Str {
+	var out []*Term
+	for len(tmpl) > 0 {
+		i := strings.IndexByte(tmpl, '$')
+		if i < 0 {
+			break
+		}
+		out = append(out, p.mkStr(tmpl[:i]).b...)
+		tmpl = tmpl[i:]
+		if len(tmpl) > 1 && tmpl[1] == '$' {
+			out = append(out, p.byteConst('$'))
+			tmpl = tmpl[2:]
+			continue
+		}
+		name, num, rest, ok := reExtract(tmpl)
+		if !ok {
+			out = append(out, p.byteConst('$'))
+			tmpl = tmpl[1:]
+			continue
+		}
+		tmpl = rest
+		if num >= 0 {
+			out = append(out, subStr(s, caps, num).b...)
+		} else {
+			p.unsupported("regexp template with named group " + name)
+		}
+	}
+	out = append(out, p.mkStr(tmpl).b...)
+	return Str{out}
+}
+
+// reExtract mirrors regexp.extract.
+func reExtract(str string) (name string, num int, rest string, ok bool) {
+	if len(str) < 2 || str[0] != '$' {
+		return
+	}
+	brace := false
+	if str[1] == '{' {
+		brace = true
+		str = str[2:]
+	} else {
+		str = str[1:]
+	}
+	i := 0
+	for i < len(str) {
+		c := str[i]
+		if !(c == '_' || (c >= '0' && c <= '9') || (c >= 'a' && c <= 'z') || (c >= 'A' && c <= 'Z')) {
+			break
+		}
+		i++
+	}
+	if i == 0 {
+		return
+	}
+	name = str[:i]
+	if brace {
+		if i >= len(str) || str[i] != '}' {
+			return
+		}
+		i++
+	}
+	num = 0
+	for k := 0; k < len(name); k++ {
+		if name[k] < '0' || '9' < name[k] || num >= 1e8 {
+			num = -1
+			break
+		}
+		num = num*10 + int(name[k]) - '0'
+	}
+	if name[0] == '0' && len(name) > 1 {
+		num = -1
+	}
+	rest = str[i:]
+	ok = true
+	return
+}
+
+// reReplaceAll mirrors (*Regexp).replaceAll.
+func (p *path) reReplaceAll(rp *reProg, s Str, repl func(caps []int) Str) Str {
+	var buf []*Term
+	lastMatchEnd, searchPos := 0, 0
+	n := len(s.b)
+	for searchPos <= n {
+		a := p.reExec(rp, s, searchPos)
+		if a == nil {
+			break
+		}
+		buf = append(buf, s.b[lastMatchEnd:a[0]]...)
+		if a[1] > lastMatchEnd || a[0] == 0 {
+			buf = append(buf, repl(a).b...)
+		}
+		lastMatchEnd = a[1]
+		width := 0
+		if searchPos < n {
+			width = 1
+		}
+		if searchPos+width > a[1] {
+			searchPos += width
+		} else if searchPos+1 > a[1] {
+			searchPos++
+		} else {
+			searchPos = a[1]
+		}
+	}
+	buf = append(buf, s.b[lastMatchEnd:]...)
+	return Str{buf}
+}
 
 func (p *path) regexpSymbolic(re *regexp.Regexp, method string, args []value) value {
+	rp, err := compileRe(re)
+	if err != nil {
+		p.unsupported("regexp compile: " + err.Error())
+	}
+	p.stubs["regexp."+method+" (symbolic matcher over regexp/syntax.Prog) /"+re.String()+"/"] = true
+	s := args[0].(Str)
+	p.reSubject(s)
+	groups := func(m []int) value {
+		out := make([]value, rp.numCap/2)
+		for k := range out {
+			out[k] = subStr(s, m, k)
+		}
+		return out
+	}
+	switch method {
+	case "MatchString":
+		return p.tc.Bool(p.reExec(rp, s, 0) != nil)
+	case "FindString":
+		m := p.reExec(rp, s, 0)
+		if m == nil {
+			return Str{}
+		}
+		return subStr(s, m, 0)
+	case "FindStringIndex":
+		m := p.reExec(rp, s, 0)
+		if m == nil {
+			return []value(nil)
+		}
+		return []value{p.tc.BV(64, uint64(m[0])), p.tc.BV(64, uint64(m[1]))}
+	case "FindStringSubmatch":
+		m := p.reExec(rp, s, 0)
+		if m == nil {
+			return []value(nil)
+		}
+		return groups(m)
+	case "FindAllStringSubmatch":
+		lim := args[1].(*Term)
+		if !lim.IsConst() || lim.Int64() >= 0 {
+			p.unsupported("FindAllStringSubmatch with a limit")
+		}
+		var out []value
+		for _, m := range p.reAll(rp, s) {
+			out = append(out, groups(m))
+		}
+		return out
+	case "FindAllString":
+		var out []value
+		for _, m := range p.reAll(rp, s) {
+			out = append(out, subStr(s, m, 0))
+		}
+		return out
+	case "ReplaceAllString":
+		t := args[1].(Str)
+		if !t.IsConcrete() {
+			p.unsupported("ReplaceAllString with a symbolic template")
+		}
+		tmpl := t.Concrete()
+		return p.reReplaceAll(rp, s, func(caps []int) Str { return p.expandTemplate(tmpl, s, caps) })
+	case "ReplaceAllStringFunc":
+		f := args[1]
+		return p.reReplaceAll(rp, s, func(caps []int) Str {
+			r := p.call(nil, f, []value{subStr(s, caps, 0)}, nil)
+			return r.(Str)
+		})
+	}
 	p.unsupported("regexp." + method + " on a symbolic subject")
 	return nil
 }
+
+var _ = strconv.Itoa
